@@ -330,3 +330,11 @@ func WriteNDJSON(path string, lines []map[string]any) error {
 	}
 	return nil
 }
+
+// PickD returns a when cond holds, b otherwise.
+func PickD[T any](cond bool, a, b T) T {
+	if cond {
+		return a
+	}
+	return b
+}
